@@ -1,3 +1,11 @@
+// Third session (2026-09-23): retried with (a) the shards moved from their boxed slice to the harness's stack
+// (`std::mem::replace(&mut ing.shards, Box::from_raw(&mut [CachePadded<Mutex<IngredientShard>>; 4]))`) and (b) an
+// inline-array model of the key map (`[Option<ValueKey>; 4]` + len) so that neither the table length nor the
+// stored pointer is read back from an untyped heap object (the trick that brought `Storage` within reach,
+// K-ST-1/2).  Symex then takes 12 s (227 k steps), but the SAT back end still runs out of memory (16 GB): the
+// *value* lives in a table page on the heap, so `value_eq(fields, key)` is not decided during symex and the
+// slot-reuse path (find_reusable_slot, intrusive-list surgery, clear_memos) is encoded as well.  Note also that
+// stubbing `intern_id_cold` does not cut that path: `intern_id` calls `find_reusable_slot` itself.
 // K-INT-6 (fast path of intern_id with the shard's key map modelled and the slow paths stubbed): symex finishes,
 // CBMC's SAT back end runs out of memory (20 GB) in propositional reduction: the found/not-found branch of the
 // key-map lookup is not decided during symex (vector length read back through Box<[CachePadded<Mutex<..>>]>),
